@@ -776,61 +776,86 @@ Inductive walk_res : Type := W_push (n : node) | W_extend (l : list node) | W_de
 
 Definition best_at (best : list N) (i : nat) : N := nth i best 0.
 
-(* the two nested loops of find_optimal_solution's body (successor compression, indifference compression) *)
-Fixpoint walk (fuel : nat) (nd : node) (indiff : option node) (best : list N) (st : sst) : walk_res * list N * sst :=
-  match fuel with
-  | O => (W_fuel, best, st)
-  | S f =>
-      let finish (succ : list node) (best : list N) (st : sst) :=
-        match succ with
-        | [n] => walk f n None best st
-        | _ => (W_extend succ, best, st)
-        end in
-      let both (ind : node) (st : sst) : sst * list node :=
-        let (st, a) := potential st ind true in
-        let (st, b) := potential st ind false in
-        (st, a ++ b) in
-      let last_token_length := match n_decs nd with t :: _ => td_lll t | [] => 0 end in
-      let last_child_length := match n_decs nd with t :: _ => match last_child_line_len (td_kids t) with Some l => l | None => 0 end | [] => 0 end in
-      let last_line_length := N.max last_token_length last_child_length in
-      match (if w_max W <? last_line_length then indiff else None) with
-      | Some ind => let (st, succ) := both ind st in finish succ best st
-      | None =>
-          match n_rest nd with
-          | [] => (W_push nd, best, st)
-          | r :: _ =>
-              let req := get_formatting_requirement (lv_type lv) (tr_win r) (tr_ty r) (tr_inv r) (tr_stk r) (n_data nd) (n_nli nd) in
-              let after (succ : list node) (indiff' : option node) (st : sst) :=
-                match succ with
-                | [n] => walk f n indiff' best st
-                | _ => match indiff' with
-                       | Some ind => let (st, more) := both ind st in finish (succ ++ more) best st
-                       | None => finish succ best st
-                       end
-                end in
-              match req with
-              | DR_Invalid =>
-                  match indiff with
-                  | Some ind => let (st, succ) := both ind st in finish succ best st
-                  | None => (W_dead, best, st)
-                  end
-              | DR_MustBreak =>
-                  let (st, sols) := potential st nd true in
-                  let li := N.to_nat (n_nli nd) in
-                  let '(best, kept) :=
-                    fold_left (fun (acc : list N * list node) (n : node) =>
-                                 if n_pen n <? best_at (fst acc) li then (upd_at li (fun _ => n_pen n) (fst acc), snd acc ++ [n]) else acc)
-                              sols (best, []) in
-                  finish kept best st
-              | DR_MustNotBreak =>
-                  let (st, succ) := potential st nd false in after succ indiff st
-              | DR_Indifferent =>
-                  let indiff' := match indiff with Some _ => indiff | None => Some nd end in
-                  let (st, succ) := potential st nd false in after succ indiff' st
+(* one pass through the body of the 'indiff loop for the node `nd` (indiff = indifference_line):
+     WS_stop r      the exploration of this heap node ends (push / extend / dead end);
+     WS_forward n i `node = node_successors.remove(0)` inside 'indiff: continue with the single successor;
+     WS_restart n   'indiff was left with exactly one successor: the outer loop starts over with it
+                    (node_successors cleared, indifference_line = None) *)
+Inductive wstep : Type := WS_stop (r : walk_res) | WS_forward (n : node) (indiff : option node) | WS_restart (n : node).
+
+Definition both (st : sst) (ind : node) : sst * list node :=
+  let (st, a) := potential st ind true in
+  let (st, b) := potential st ind false in
+  (st, a ++ b).
+
+Definition finish (succ : list node) : wstep :=
+  match succ with
+  | [n] => WS_restart n
+  | _ => WS_stop (W_extend succ)
+  end.
+
+Definition last_line_length_of (nd : node) : N :=
+  let last_token_length := match n_decs nd with t :: _ => td_lll t | [] => 0 end in
+  let last_child_length := match n_decs nd with t :: _ => match last_child_line_len (td_kids t) with Some l => l | None => 0 end | [] => 0 end in
+  N.max last_token_length last_child_length.
+
+Definition walk_step (nd : node) (indiff : option node) (best : list N) (st : sst) : wstep * list N * sst :=
+  match (if w_max W <? last_line_length_of nd then indiff else None) with
+  | Some ind => let (st, succ) := both st ind in (finish succ, best, st)
+  | None =>
+      match n_rest nd with
+      | [] => (WS_stop (W_push nd), best, st)
+      | r :: _ =>
+          let req := get_formatting_requirement (lv_type lv) (tr_win r) (tr_ty r) (tr_inv r) (tr_stk r) (n_data nd) (n_nli nd) in
+          let after (succ : list node) (indiff' : option node) (st : sst) :=
+            match succ with
+            | [n] => (WS_forward n indiff', best, st)
+            | _ => match indiff' with
+                   | Some ind => let (st, more) := both st ind in (finish (succ ++ more), best, st)
+                   | None => (finish succ, best, st)
+                   end
+            end in
+          match req with
+          | DR_Invalid =>
+              match indiff with
+              | Some ind => let (st, succ) := both st ind in (finish succ, best, st)
+              | None => (WS_stop W_dead, best, st)
               end
+          | DR_MustBreak =>
+              let (st, sols) := potential st nd true in
+              let li := N.to_nat (n_nli nd) in
+              let '(best, kept) :=
+                fold_left (fun (acc : list N * list node) (n : node) =>
+                             if n_pen n <? best_at (fst acc) li then (upd_at li (fun _ => n_pen n) (fst acc), snd acc ++ [n]) else acc)
+                          sols (best, []) in
+              (finish kept, best, st)
+          | DR_MustNotBreak =>
+              let (st, succ) := potential st nd false in after succ indiff st
+          | DR_Indifferent =>
+              let indiff' := match indiff with Some _ => indiff | None => Some nd end in
+              let (st, succ) := potential st nd false in after succ indiff' st
           end
       end
   end.
+
+(* the two nested loops of find_optimal_solution's body (successor compression, indifference compression).
+   f1 bounds the restarts of the outer loop, f2 the steps of the inner loop since the last restart *)
+Fixpoint walk (f1 : nat) : nat -> node -> option node -> list N -> sst -> walk_res * list N * sst :=
+  fix inner (f2 : nat) (nd : node) (indiff : option node) (best : list N) (st : sst) {struct f2} : walk_res * list N * sst :=
+    match f2 with
+    | O => (W_fuel, best, st)
+    | S f2' =>
+        let '(s, best, st) := walk_step nd indiff best st in
+        match s with
+        | WS_stop r => (r, best, st)
+        | WS_forward n i => inner f2' n i best st
+        | WS_restart n =>
+            match f1 with
+            | O => (W_fuel, best, st)
+            | S f1' => walk f1' (S (length (n_rest n))) n None best st
+            end
+        end
+    end.
 
 Inductive sres : Type := SR_ok (s : solution) | SR_none | SR_limit | SR_fuel.
 
@@ -854,7 +879,8 @@ Fixpoint main_loop (fuel : nat) (h : heap) (iter : N) (best : list N) (st : sst)
             | _ :: _ =>
                 if best_at best (N.to_nat (N.pred (n_nli nd))) <? n_pen nd then main_loop f h iter best st
                 else
-                  let '(res, best, st) := walk (S (S (length (lv_recs lv)))) nd None best st in
+                  let fuel := S (length (n_rest nd)) in
+                  let '(res, best, st) := walk fuel fuel nd None best st in
                   match res with
                   | W_push n => main_loop f (heap_push n h) iter best st
                   | W_extend l => main_loop f (heap_extend l h) iter best st
